@@ -122,11 +122,16 @@ impl FileSystem for OverlayFS {
                 VfsFileType::Directory => Err(VfsErrorKind::DirectoryExists.into()),
             };
         }
-        self.write_path(path)?.create_dir()?;
+        // Drop the removal marker before the directory appears in the write layer: otherwise a concurrent
+        // create_dir_all finds the new directory still marked as removed. Another thread may drop it first.
         let whiteout_path = self.whiteout_path(path)?;
         if whiteout_path.exists()? {
-            whiteout_path.remove_file()?;
+            match whiteout_path.remove_file() {
+                Err(err) if !matches!(err.kind(), VfsErrorKind::FileNotFound) => return Err(err),
+                _ => {}
+            }
         }
+        self.write_path(path)?.create_dir()?;
         Ok(())
     }
 
